@@ -50,7 +50,7 @@ EXPECTED_PROBES = [
     "initial_load_origin_from_text",
 ]
 
-NAMES = ["@", "a", "sub", "ns.sub", "deep.ns.sub", "x.sub", "sub2.sub", "a.sub2.sub", "zz", "leaf.ent", "*.w", "sub3", "g.sub3", "b.a"]
+NAMES = ["@", "a", "sub", "ns.sub", "deep.ns.sub", "x.sub", "sub2.sub", "a.sub2.sub", "zz", "leaf.ent", "*.w", "sub3", "g.sub3", "b.a", "_dmarc", "_sip.sub", "^z", "Y"]  # (octets between "Z" and "a" sort between upper- and lower-case letters only if case is folded the right way)
 TYPES = ["NS", "NS", "NS", "A", "TXT", "CNAME", "AAAA", "RRSIG:CNAME", "RRSIG:NS"]  # signatures: covering CNAME displaces NS like a CNAME; covering NS alone makes no cut
 TYPES_CH = ["NS", "NS", "NS", "TXT", "CNAME", "MX", "RRSIG:CNAME", "RRSIG:NS"]  # (A/AAAA have other formats outside class IN)
 QUERY_EXTRA = ["0", "aa", "sub1", "q.sub", "q.ns.sub", "z.deep.ns.sub", "ent", "q.ent", "zzz", "q.zz", "w", "q.w", "sub2", "t.sub2.sub", "sub4", "q.a", "z.b.a", "\\000.sub", "sub\\000"]
@@ -119,13 +119,19 @@ def gen_case(seed, tier):
 # the definition, recomputed from content
 
 
+def ck(name):
+    """Canonical ordering key of an absolute name, written from RFC 4034 6.1 (labels right to left,
+    each compared as lower-cased octet strings, a missing label first) -- not the library's `<`."""
+    return tuple(bytes(label).lower() for label in reversed(name.labels))
+
+
 def derive(origin, content):
     """content: {absname: set of (rdtype, covers)}. Returns (D, glue, order)."""
     names = list(content)
     ns_owners = [n for n in names if n != origin and (2, 0) in content[n]]
     D = set(n for n in ns_owners if not any(n != m and n.is_subdomain(m) for m in ns_owners))
     glue = set(n for n in names if any(n != d and n.is_subdomain(d) for d in D))
-    order = sorted(names)
+    order = sorted(names, key=ck)
     return D, glue, order
 
 
@@ -135,15 +141,15 @@ def expected_bounds(origin, content, D, glue, q):
         if q.is_subdomain(d):
             cut = d
             break
-    visible = sorted(n for n in content if n not in glue)
+    visible = sorted((n for n in content if n not in glue), key=ck)
     if cut is not None:
         left = cut
     else:
-        cands = [n for n in visible if n <= q]
+        cands = [n for n in visible if ck(n) <= ck(q)]
         left = cands[-1]
     right = None
     for n in visible:
-        if n > left and (cut is None or not n.is_subdomain(cut)) and (cut is not None or n > q):
+        if ck(n) > ck(left) and (cut is None or not n.is_subdomain(cut)) and (cut is not None or ck(n) > ck(q)):
             right = n
             break
     enc = None
